@@ -14,7 +14,6 @@ static size_t any_node(void) { size_t i = nondet_size_t(); __CPROVER_assume(i < 
 static size_t any_list(void) { size_t l = nondet_size_t(); __CPROVER_assume(l < LL_NL); return l; }
 /* a node a client may insert: not a sentinel */
 static size_t any_client_node(void) { size_t i = any_node(); __CPROVER_assume(i < LL_K || i == LL_OUTSIDE); return i; }
-#define IS_SENTINEL(i) ((i) >= LL_K && (i) < LL_OUTSIDE)
 
 void h_init(void) {
     ll_setup();
@@ -37,8 +36,8 @@ void h_insert_after(void) {
     aws_linked_list_insert_after(ll_u(a), ll_u(t));
     ll_ref_insert_between(a, t, ll_nx[a]);
     ll_check_post();
-    if (IS_SENTINEL(a)) CANARY("after a head sentinel"); else CANARY("after an interior node");
-    if (IS_SENTINEL(ll_nx[a])) CANARY("before a tail sentinel");
+    if (ll_pv[a] == LL_NONE) CANARY("after a head sentinel (node without predecessor)"); else CANARY("after an interior node");
+    if (ll_nx[ll_nx[a]] == LL_NONE) CANARY("before a tail sentinel (node without successor)");
 }
 
 void h_insert_before(void) {
@@ -49,7 +48,8 @@ void h_insert_before(void) {
     aws_linked_list_insert_before(ll_u(b), ll_u(t));
     ll_ref_insert_between(ll_pv[b], t, b);
     ll_check_post();
-    if (IS_SENTINEL(b)) CANARY("before a tail sentinel"); else CANARY("before an interior node");
+    if (ll_nx[b] == LL_NONE) CANARY("before a tail sentinel (node without successor)"); else CANARY("before an interior node");
+    if (ll_pv[ll_pv[b]] == LL_NONE) CANARY("after a head sentinel (node without predecessor)");
 }
 
 void h_remove(void) {
@@ -64,7 +64,7 @@ void h_remove(void) {
     for (size_t i = 0; i < LL_N; ++i) {
         __CPROVER_assert(ll_u(i)->next != ll_u(x) && ll_u(i)->prev != ll_u(x), "removed node is fully detached: no node links to it");
     }
-    if (IS_SENTINEL(ll_pv[x]) && IS_SENTINEL(ll_nx[x])) CANARY("only element of a list"); else CANARY("interior element");
+    if (ll_pv[ll_pv[x]] == LL_NONE && ll_nx[ll_nx[x]] == LL_NONE) CANARY("only element between two sentinels"); else CANARY("interior element");
 }
 
 void h_swap_nodes(void) {
@@ -91,7 +91,7 @@ void h_swap_nodes(void) {
     else if (na == pb) CANARY("one node between, a first");
     else if (nb == pa) CANARY("one node between, b first");
     else CANARY("apart");
-    if (a != b && IS_SENTINEL(pa) && IS_SENTINEL(nb) && na == b) CANARY("the two only elements of a list");
+    if (a != b && ll_pv[pa] == LL_NONE && ll_nx[nb] == LL_NONE && na == b) CANARY("the two only elements between two sentinels");
 }
 
 void h_push_back(void) {
